@@ -25,6 +25,7 @@ type Obligation struct {
 
 // Unit verifies one function body against its contract.
 type Unit struct {
+	pureMemo map[string][]Value
 	w        *World
 	pkg      *PkgInfo
 	fn       *ssa.Function
